@@ -5,11 +5,11 @@
      (3 n c k)          -> one chunk
    and, running the TRANSLATED source (Generated/Src*.v) instead of the hand-written model, so that the primitives the
    translation trusts are compared with numpy / itertools on every run:
-     (4 n c order D)    -> the translated pipeline (calculate_pairwise per chunk, concat, to_dense)
+     (4 n c order D)    -> the translated pipeline (calculate_pairwise, save, load per chunk; concat; to_dense)
      (5 script)         -> a script of ChunkedDistanceMatrix calls on a register file of stored objects (values are
                            integers): (0 size n_chunks chunk_index chunk_size?) new, (1 r i j v) add_value,
                            (2 ra rb) combine, (3 (r ...)) concat, (4 r) is_complete, (5 r) to_dense,
-                           (6 n k c) get_lower_triangular_indices_chunk;
+                           (6 n k c) get_lower_triangular_indices_chunk, (7 r) save then load;
                            answer: (per-command results, final registers) *)
 From Coq Require Import ZArith List QArith Qcanon.
 From Batchie Require Import Lib.Sexp Lib.Num Lib.PyRt Model.Chunks Model.DistMat Model.Mse
@@ -48,6 +48,9 @@ Definition script_step (rs : list (cdm Z)) (cmd : sexp) : option (list (cdm Z) *
       do r <- as_Z r; do o <- reg rs r; Some (rs, of_result of_bool (src_cdm_is_complete Z 0 visz_Z o))
   | SL [SZ 5; r] =>
       do r <- as_Z r; do o <- reg rs r; Some (rs, of_result (of_list of_Zs) (src_cdm_to_dense Z 0 visz_Z o))
+  | SL [SZ 7; r] =>
+      do r <- as_Z r; do o <- reg rs r;
+      Some (push_obj rs (dor f <- src_cdm_save Z 0 visz_Z o; src_cdm_load Z 0 visz_Z f))
   | SL [SZ 6; n; k; c] =>
       do n <- as_Z n; do k <- as_Z k; do c <- as_Z c;
       Some (rs, of_result (of_list (of_pair SZ SZ)) (src_get_lower_triangular_indices_chunk n k c))
@@ -65,8 +68,9 @@ Fixpoint run_script (rs : list (cdm Z)) (cmds : list sexp) (outs : list sexp) : 
 
 (* the translated pipeline, as Proofs/C07SourcePipeline.src_pipeline composes it, on an integer metric table *)
 Definition src_pipeline_Z (D : list (list Z)) (n : nat) (c : Z) (order : list Z) : result (list (list Z)) :=
-  dor ms <- res_map_all (fun k => src_calculate_pairwise Z 0 visz_Z Z Z (Z.of_nat n) (fun i => i) (fun t => t)
-                                    (fun a b => nth (Z.to_nat b) (nth (Z.to_nat a) D []) 0) k c) order;
+  dor ms <- res_map_all (fun k => dor m <- src_calculate_pairwise Z 0 visz_Z Z Z (Z.of_nat n) (fun i => i) (fun t => t)
+                                              (fun a b => nth (Z.to_nat b) (nth (Z.to_nat a) D []) 0) k c;
+                                  dor f <- src_cdm_save Z 0 visz_Z m; src_cdm_load Z 0 visz_Z f) order;
   dor m <- src_cdm_concat Z 0 visz_Z ms;
   src_cdm_to_dense Z 0 visz_Z m.
 
